@@ -17,9 +17,10 @@ P = O.BLS_P
 
 def g1_points(rng, tier):
     pts = [None, O.g1(1), O.g1(rng.randrange(1, O.BLS_R)), O.rand_curve_point_g1(rng), O.torsion_g1(rng)]
-    # y close to (p-1)/2 cannot be constructed directly; sample more points and keep both signs
     Q = O.rand_curve_point_g1(rng)
     pts += [Q, O.aff_neg(Q)]
+    # y within a few units of the boundary of the sign rule ((p-1)/2 | (p+1)/2) and of the ends of the range, built by a cube root
+    pts += O.g1_points_y_boundary(2 if tier == "quick" else 6)
     if tier == "thorough":
         pts += [O.rand_curve_point_g1(rng) for _ in range(20)]
     return pts
@@ -209,7 +210,8 @@ def g2_word_pred(z1, z2):
 def predicates(rng, tier, only=None):
     ps = []
     for Pt in g1_points(rng, tier):
-        ps.append(Pred("g1-roundtrip", g1_roundtrip_pred, (Pt, rng.randrange(1, P))))
+        k1 = {"op": "compress_decompress_G1", "affine_x": 0} if (Pt is not None and Pt[0].v == 0) else None   # the K1 points
+        ps.append(Pred("g1-roundtrip", g1_roundtrip_pred, (Pt, rng.randrange(1, P)), match=k1))
     # K1: the two points with x = 0 (order 3, outside the subgroup)
     for y in (2, P - 2):
         Pt = (O.Fp(0, P), O.Fp(y, P))
